@@ -4,7 +4,7 @@ CONSTANTS
   InitCap = 16
   MaxCap = 32
   WriteSizes = {}
-  InjGood = {8, 25, 32}
+  InjGood = {8, 16, 25, 32}
   InjUndec = {20}
   InjShort = {7}
   InjOver = {33}
@@ -19,6 +19,7 @@ CONSTANTS
   Record = FALSE
   History = FALSE
   Depth = 0
+  Edges = FALSE
   Deviations = {}
 INVARIANTS TypeOK P_C11_Slices P_C11_Bounded P_C11_Conservation P_C11_NoBufferFull P_C11_CanReceive Lemma_PosHalf
 PROPERTIES P_C11_DeliverHead
